@@ -320,7 +320,8 @@ def run(ctx):
         if n.kind == 'stmt' and isinstance(s, ast.Assign) and isinstance(s.targets[0], ast.Subscript):
           idx = u(s.targets[0].slice)
           for lp in n.loops:
-            if isinstance(lp, ast.For) and w.req_pos_idx and w.req_pos_idx in u(lp.iter) and idx in u(lp.target):
+            rl = w.required_positional_loop(lp)
+            if rl and rl[0] == idx:
               idx_ok = True
         if not idx_ok:
           bad.append(n)
@@ -356,7 +357,9 @@ def run(ctx):
           n_cmp += 1
           if not isinstance(op_, (ast.Is, ast.IsNot)):
             bad_cmp.append(f.loc(n_))
-  ctx.check(not bad_cmp and n_cmp >= 3, 'C01.precedence', con, 'caller values are tested against the REQUIRED marker by identity only',
+  if n_cmp < 2:
+    raise AnalysisError('gin_wrapper: fewer than two comparisons with the REQUIRED marker found (%d): marker handling not recognised' % n_cmp)
+  ctx.check(not bad_cmp, 'C01.precedence', con, 'caller values are tested against the REQUIRED marker by identity only',
             'a caller value is compared with the marker by equality at %s: a value with a permissive __eq__ (mock.ANY, symbolic objects) is replaced by the binding' % bad_cmp,
             bad_cmp[0] if bad_cmp else f.loc(), instance='marker-identity')
 
